@@ -57,6 +57,12 @@ func propagateMatchers(binOp *parser.BinaryExpr) {
 	if lhSelector.Name == rhSelector.Name {
 		return
 	}
+	// A side without a metric name can select series of several metrics, which can be
+	// duplicates of each other for the match: the query then fails whatever the other side
+	// selects, and narrowing the side could make that error go away.
+	if lhSelector.Name == "" || rhSelector.Name == "" {
+		return
+	}
 
 	lhNames, lhLabels := splitMatchers(lhSelector.LabelMatchers)
 	rhNames, rhLabels := splitMatchers(rhSelector.LabelMatchers)
